@@ -75,7 +75,7 @@ def run_symgo(prop, tier, workdir, overlay, seed):
     env = dict(GOENV, VERIF_TIER=tier, VERIF_SEED=str(seed))
     if os.environ.get('VERIF_PROGRESS'):
         env['SYMGO_PROGRESS'] = '1'
-    p = subprocess.Popen(cmd, env=env, stdout=subprocess.PIPE, stderr=subprocess.STDOUT, text=True)
+    p = subprocess.Popen(cmd, env=env, stdout=subprocess.PIPE, stderr=subprocess.STDOUT, text=True, errors='replace')
     lines = []
     for line in p.stdout:
         lines.append(line)
@@ -111,7 +111,7 @@ class Replayer:
             json.dump({'Replace': m}, open(ov, 'w'))
             cmd += ['-overlay', ov]
         cmd += ['.']
-        r = sh(cmd, cwd=HARNESS, env=GOENV, stdout=subprocess.PIPE, stderr=subprocess.STDOUT, text=True)
+        r = sh(cmd, cwd=HARNESS, env=GOENV, stdout=subprocess.PIPE, stderr=subprocess.STDOUT, text=True, errors='replace')
         self.built = r.returncode == 0
         if not self.built:
             log('check: native replay build failed:\n' + r.stdout[-3000:])
@@ -125,7 +125,7 @@ class Replayer:
         env = dict(GOENV, VERIF_REPLAY=replay_path, VERIF_TIER=tier)
         try:
             r = sh(['bash', '-c', 'ulimit -v 8000000; exec "$0" -test.run "^TestReplay$" -test.v -test.timeout %ds' % (timeout + 5), self.bin],
-                   cwd=HARNESS, env=env, stdout=subprocess.PIPE, stderr=subprocess.STDOUT, text=True, timeout=timeout)
+                   cwd=HARNESS, env=env, stdout=subprocess.PIPE, stderr=subprocess.STDOUT, text=True, errors='replace', timeout=timeout)
         except subprocess.TimeoutExpired:
             return 'hang', 'native run did not finish within %ds' % timeout
         out = r.stdout
